@@ -108,6 +108,8 @@ Definition basic_name (k : N) : str := nth (N.to_nat k) basic_names [].
 
 (* ---------- small string helpers ---------- *)
 
+Definition is_nil {A} (l : list A) : bool := match l with [] => true | _ => false end.
+
 Definition bool_str (b : bool) : str := if b then s_true else s_false.
 Definition is_upper (c : N) : bool := (65 <=? c) && (c <=? 90).
 (* token.IsExported / Object.Exported restricted to ASCII identifiers *)
@@ -220,7 +222,18 @@ Fixpoint methods_pkg (acc : str) (ms : methods) {struct ms} : str :=
                    end) r
   end.
 
+(* strconv.Quote restricted to printable ASCII (0x20..0x7e): only the quote and the backslash are escaped *)
+Definition esc_byte (c : N) : str := if (c =? 34) || (c =? 92) then [92; c] else [c].
+Definition quote_tag (s : str) : str := [34] ++ flat_map esc_byte s ++ [34].
+(* types.Id: exported names are bare, others are qualified by the package path (_ when there is none) *)
+Definition method_id (name : str) (pkg : option str) : str :=
+  if exported name then name
+  else (match pkg with Some (c :: p) => c :: p | _ => [95] end) ++ [c_dot] ++ name.
+
 Section Name.
+(* fx = true: the code after the fixes of structHash (tags hashed when non-empty, embedded fields rendered
+   as - followed by the field name) and interfaceHash (method Id instead of Name); fx = false: before *)
+Variable fx : bool.
 Variable H : str -> str.          (* base64.RawURLEncoding(sha256(text)) *)
 
 (* [pm] = the caller applied PublicType first (tuple elements of signatures) *)
@@ -269,14 +282,15 @@ with tuple_lines (ts : tys) : str :=
 with field_lines (fs : fields) : str :=
   match fs with
   | FsNil => []
-  | FsCons name emb _ _ t r =>
-      (if emb then [c_dash] else name) ++ [c_sp] ++ fst (tn false t) ++ [c_nl] ++ field_lines r
+  | FsCons name emb tag _ t r =>
+      (if emb then (if fx then c_dash :: name else [c_dash]) else name) ++ [c_sp] ++ fst (tn false t)
+      ++ (if fx && negb (is_nil tag) then [c_sp] ++ quote_tag tag else []) ++ [c_nl] ++ field_lines r
   end
 with method_lines (ms : methods) : str :=
   match ms with
   | MsNil => []
-  | MsCons name _ ps rs v r =>
-      name ++ [c_sp]
+  | MsCons name pkg ps rs v r =>
+      (if fx then method_id name pkg else name) ++ [c_sp]
       ++ (s_func_ ++ H (func_hdr (tys_len ps) (tys_len rs) v ++ tuple_lines ps ++ tuple_lines rs))
       ++ [c_nl] ++ method_lines r
   end.
@@ -285,7 +299,7 @@ Definition type_name (t : ty) : str * bool := tn false t.
 End Name.
 
 (* the concrete instance compared with the implementation *)
-Definition type_name_sha (t : ty) : str * bool := type_name sha256_b64 t.
+Definition type_name_sha (t : ty) : str * bool := type_name true sha256_b64 t.
 
 (* ---------- Go type identity (go/types Identical, no type parameters) ---------- *)
 
@@ -402,10 +416,15 @@ Fixpoint impl_scan (t : list imeth) (v : list meth) : bool :=
              then impl_scan t' v' else go v'
          end) v
   end.
-Definition implements (t : list imeth) (v : option (list meth)) : bool :=
+Definition is_some {A} (o : option A) : bool := match o with Some _ => true | None => false end.
+(* fixed = false: the one simultaneous scan; fixed = true: one findMethod per interface method *)
+Definition implements (fixed : bool) (t : list imeth) (v : option (list meth)) : bool :=
   match t with
   | [] => true
-  | _ => match v with None => false | Some v => impl_scan t v end
+  | _ => match v with
+         | None => false
+         | Some v => if fixed then forallb (fun im => is_some (find_method v im)) t else impl_scan t v
+         end
   end.
 
 (* comparison helpers for the correspondence *)
@@ -414,7 +433,6 @@ Definition ostrN_eqb := option_eqb (list_eqb N.eqb).
 
 (* ---------- well-formedness (guards of the injectivity theorems) ---------- *)
 
-Definition is_nil {A} (l : list A) : bool := match l with [] => true | _ => false end.
 Definition is_digit (c : N) : bool := (48 <=? c) && (c <=? 57).
 Definition ident_char (c : N) : bool :=
   is_upper c || ((97 <=? c) && (c <=? 122)) || is_digit c || (c =? 95).
@@ -439,21 +457,12 @@ Definition s_error : str := Eval vm_compute in lit "error".
 Definition wf_scope (sc : scope) : bool :=
   match sc with ScPkg => true | ScLocal ids => negb (is_nil ids) | ScPos p => negb (p =? 0) end.
 
-(* an embedded field is named after its (pointer to) named type *)
-Definition emb_name_ok (n : str) (t : ty) : bool :=
-  match t with
-  | TNamed _ m _ _ => str_eqb n m
-  | TPtr (TNamed _ m _ _) => str_eqb n m
-  | _ => false
-  end.
+Definition wf_tag (tag : str) : bool := forallb (fun c => (32 <=? c) && (c <=? 126)) tag.
 Definition struct_pkg (fs : fields) : str :=
   match fs with FsCons _ _ _ (Some p) _ _ => p | _ => [] end.
-Definition iface_pkg (ms : methods) : str :=
-  match ms with MsCons _ (Some p) _ _ _ _ => p | _ => [] end.
 
-(* source-expressible types without generic instances: ASCII identifiers, sane
-   import paths, all members of a struct / interface literal declared in one
-   package, no struct tags (F6), embedded fields named after their type *)
+(* types without generic instances: ASCII identifiers, sane import paths, all fields of a
+   struct literal declared in one package, struct tags over printable ASCII *)
 Fixpoint wf (t : ty) : bool :=
   match t with
   | TBasic k _ => (1 <=? k) && (k <=? 18)
@@ -467,7 +476,7 @@ Fixpoint wf (t : ty) : bool :=
   | TMap k e => wf k && wf e
   | TFunc ps rs _ => wf_tys ps && wf_tys rs
   | TStruct fs => wf_fields (struct_pkg fs) fs && (is_nil (struct_pkg fs) && match fs with FsNil => true | _ => false end || wf_path (struct_pkg fs))
-  | TIface ms => wf_methods (iface_pkg ms) ms && (is_nil (iface_pkg ms) && match ms with MsNil => true | _ => false end || wf_path (iface_pkg ms))
+  | TIface ms => wf_methods ms
   end
 with wf_tys (ts : tys) : bool :=
   match ts with TsNil => true | TsCons _ t r => wf t && wf_tys r end
@@ -475,14 +484,14 @@ with wf_fields (P : str) (fs : fields) : bool :=
   match fs with
   | FsNil => true
   | FsCons n emb tag pkg t r =>
-      ostr_eqb pkg (Some P) && is_nil tag && wf t
-      && (if emb then emb_name_ok n t else wf_ident n) && wf_fields P r
+      ostr_eqb pkg (Some P) && wf_tag tag && wf t && wf_ident n && wf_fields P r
   end
-with wf_methods (P : str) (ms : methods) : bool :=
+with wf_methods (ms : methods) : bool :=
   match ms with
   | MsNil => true
   | MsCons n pkg ps rs _ r =>
-      ostr_eqb pkg (Some P) && wf_ident n && wf_tys ps && wf_tys rs && wf_methods P r
+      match pkg with Some p => wf_path p | None => false end
+      && wf_ident n && wf_tys ps && wf_tys rs && wf_methods r
   end.
 
 (* type arguments whose rendering is canonical: no byte/rune spelling and no
